@@ -308,6 +308,8 @@ func (e *enc) event(steps stepIndex, raw []byte) {
 		e.n(8)
 	case "failure":
 		e.n(9, failCode(ev.Text))
+	case "dial_wait":
+		e.n(10)
 	default:
 		e.n(98)
 		e.text(ev.Type)
